@@ -62,7 +62,7 @@ fn main() {
     }
     let thorough = args.tier == Tier::Thorough;
     let mut c = Check::new("C11", args.tier, "exploration");
-    c.rule = "capability lists: every sequence up to length 4 (thorough 5) over 11 capability shapes, plus every sequence of length 5 (thorough 6) that contains the three mandatory structures, in 2 placements; BAR kinds x offset/length boundary sets with up to two capabilities deviating from the default; notify multipliers; BAR index values; cyclic lists under a read budget; then the full Transport operation script on every accepted layout with every MMIO access classified against the true windows. Oracle: reference parser in 128-bit arithmetic. distinct = distinct outcome classes x parts".into();
+    c.rule = "capability lists: every sequence up to length 4 (thorough 5) over 11 capability shapes, plus every sequence of length 5 (thorough 6) that contains the three mandatory structures, in 2 placements; lists filling configuration space to its last byte (the first capability of each type ending at offset 0x100, a decoy of the same type later in the list); BAR kinds x offset/length boundary sets with up to two capabilities deviating from the default; notify multipliers; BAR index values; cyclic lists under a read budget; then the full Transport operation script on every accepted layout with every MMIO access classified against the true windows. Oracle: reference parser in 128-bit arithmetic. distinct = distinct outcome classes x parts".into();
     c.assumptions = vec!["8-byte alignment is required of the common configuration window (the driver uses 64-bit accesses)".into(), "which error is returned is not constrained, only error vs success and the selected windows".into()];
     let mut acc = Acc { evals: 0, classes: BTreeMap::new(), viols: vec![] };
     // Part A: list structure.
@@ -109,6 +109,43 @@ fn main() {
             acc.case_no_list("lists", &bars, l, false);
         }
         frontier = next;
+    }
+    // Part A': lists that fill configuration space to its last byte. In the reversed placement
+    // the first capability of the list ends exactly at offset 0x100; for each structure type in
+    // turn that capability is the (valid) first one of its type and a decoy of the same type with
+    // another window comes last in the list. In the forward placement the decoy is the one at
+    // the end of configuration space.
+    {
+        let filler = |len: u8| VCap { cap_id: 0x05, cap_len: len, cfg_type: 0, bar: 0, offset: 0, length: 0, mult: 0, idpad: 0 };
+        let goods = [c11::good_common(), c11::good_notify(), c11::good_isr(), c11::good_device()];
+        let decoys = [
+            VCap { offset: 0x800, length: 0x40, ..c11::good_common() },
+            VCap { offset: 0x2800, length: 0x80, mult: 8, ..c11::good_notify() },
+            VCap { offset: 0x1800, length: 0x10, ..c11::good_isr() },
+            VCap { offset: 0x2400, length: 0x20, ..c11::good_device() },
+        ];
+        for t in 0..4usize {
+            let mut l: Vec<VCap> = vec![goods[t]];
+            for (k, g) in goods.iter().enumerate() {
+                if k != t {
+                    l.push(*g);
+                }
+            }
+            let used: usize = 68 + if t == 1 { 20 } else { 16 };
+            let mut rest = 192 - used;
+            while rest >= 24 {
+                l.push(filler(24));
+                rest -= 24;
+            }
+            if rest > 0 {
+                l.push(filler(rest as u8));
+            }
+            l.push(decoys[t]);
+            let bytes: usize = l.iter().map(|c| (c.spec().body.len() + 2 + 3) & !3).sum();
+            assert_eq!(bytes, 192);
+            acc.case("lists-to-the-last-byte", &bars, &l, true);
+            acc.case("lists-to-the-last-byte", &bars, &l, false);
+        }
     }
     // Part B: BAR kinds and offset/length boundaries, one or two deviating capabilities.
     let bar_opts: Vec<(BarKind, u64)> = vec![
